@@ -13,6 +13,54 @@ import z3
 QUICK_TIMEOUT_MS = int(os.environ.get("VERIF_Z3_TIMEOUT_MS", "20000"))
 
 
+def _symbols(e, cache):
+    key = e.get_id()
+    r = cache.get(key)
+    if r is not None:
+        return r
+    out = set()
+    stack = [e]
+    seen = set()
+    while stack:
+        x = stack.pop()
+        i = x.get_id()
+        if i in seen:
+            continue
+        seen.add(i)
+        if z3.is_app(x):
+            if x.decl().kind() == z3.Z3_OP_UNINTERPRETED:
+                out.add(x.decl().name())
+            stack.extend(x.children())
+        elif z3.is_quantifier(x):
+            stack.append(x.body())
+    cache[key] = out
+    return out
+
+
+def slice_pc(pc, goal):
+    """cone of influence: the path-condition conjuncts that (transitively) share an uninterpreted symbol with the goal.
+    Dropping hypotheses is sound for proving; a `sat` on the slice is re-checked on the full path condition."""
+    cache = {}
+    want = set(_symbols(goal, cache))
+    rest = list(pc)
+    kept = []
+    changed = True
+    while changed:
+        changed = False
+        nxt = []
+        for c in rest:
+            sy = _symbols(c, cache)
+            if sy & want or not sy:
+                kept.append(c)
+                if not sy <= want:
+                    want |= sy
+                    changed = True
+            else:
+                nxt.append(c)
+        rest = nxt
+    return kept
+
+
 def to_query(pc, goal, metas=None):
     """-> (smt2 text, [meta names]) for  pc /\\ not goal  with named meta terms."""
     s = z3.Solver()
@@ -94,6 +142,7 @@ def discharge(obligations, jobs=None, timeout_ms=None, cross=False):
     timeout_ms = timeout_ms or QUICK_TIMEOUT_MS
     texts = []
     work = []
+    sliced = {}
     for i, ob in enumerate(obligations):
         g = ob["goal"]
         if z3.is_true(g) and ob.get("kind", "vc") == "vc":
@@ -104,11 +153,19 @@ def discharge(obligations, jobs=None, timeout_ms=None, cross=False):
         metas = {k: v for k, v in (ob.get("meta") or {}).items() if isinstance(v, z3.ExprRef)}
         text, _ = to_query(ob["pc"], g, metas)
         texts.append(text)
-        work.append((i, text, timeout_ms, True))
+        sl = slice_pc(ob["pc"], g) if ob.get("kind", "vc") == "vc" else ob["pc"]
+        if len(sl) < len(ob["pc"]):
+            sliced[i] = to_query(sl, g, None)[0]
+        work.append((i, sliced.get(i, text), timeout_ms, True))
     if len(work) <= 2 or jobs == 1:
         results = [_worker(w) for w in work]
     else:
         results = pool(jobs).map(_worker, work, chunksize=1)
+    # anything not proved on its slice is re-run on the full path condition (models must satisfy all of it)
+    redo = [(idx, texts[idx], timeout_ms, True) for idx, r, *_ in results if idx in sliced and r != "unsat"]
+    if redo:
+        again = {x[0]: x for x in ([_worker(w) for w in redo] if len(redo) <= 2 or jobs == 1 else pool(jobs).map(_worker, redo, chunksize=1))}
+        results = [again.get(x[0], x) for x in results]
     for idx, r, model, ms, backend, reason in results:
         ob = obligations[idx]
         ob["ms"] = round(ms, 1)
@@ -124,6 +181,17 @@ def discharge(obligations, jobs=None, timeout_ms=None, cross=False):
                     ob["backend"] = tool
                     ob["solver_result"] = r2
                     r = r2
+                    break
+        if r not in ("unsat", "sat") and ob.get("hints"):
+            # model search under extra finite-size hints (alternatives tried in order): a model of
+            # pc /\ not goal /\ hint is a genuine counter-model
+            alts = ob["hints"] if ob["hints"] and isinstance(ob["hints"][0], (list, tuple)) else [ob["hints"]]
+            for alt in alts:
+                t2, _ = to_query(list(ob["pc"]) + list(alt), ob["goal"], {k: v for k, v in (ob.get("meta") or {}).items() if isinstance(v, z3.ExprRef)})
+                _, r3, model3, ms3, be3, _ = _worker((idx, t2, min(timeout_ms, 5000), True))
+                if r3 == "sat":
+                    r = "sat"
+                    ob.update(model=model3, backend=be3 + "+size-hints", solver_result="sat")
                     break
         ob["status"] = {"unsat": "proved", "sat": "refuted"}.get(r, "unknown")
         if cross and r in ("unsat", "sat"):
